@@ -131,6 +131,8 @@ struct nsim_runcfg {
 	int fail_alloc_index;        /* C19: the k-th constructor allocation fails (0: none) */
 	const char *tolerate_dead_reads_in; /* a READ of reclaimed memory made while the fibre is inside a function, or a harness op, whose name contains this string ends the run as discarded (RV_LIMIT) instead of as a violation */
 	int extra_steps;             /* added to the step budget of the drain phase (families whose legal programs are very long) */
+	int clock_align;             /* clock reads may first jump the clock forward (by less than a second) onto an instant whose sub-second part is a round
+	                                distance from the next full second: for code that does arithmetic on its clock readings */
 	int policy_noise;            /* policy 4 only: probability (in 1/10000 per scheduling decision) of a uniformly random pick instead of the highest priority */
 	int policy;                  /* 0: seeded swarm; 4: strict priorities given by nsim_set_prio(); 5: swarm restricted to fair policies (uniform, sticky) */
 };
